@@ -189,19 +189,31 @@ def _thread_constant_returns(blocks, bo, n, ret_local, target):
                 c = _const_of(st[4])
         if c is None:
             continue
-        # follow trivial gotos to a return block
-        j, hops, extra = b["t"][3], 0, []
-        while j not in ret_blocks and hops < 4 and bo <= j < bo + n and blocks[j]["t"][2] == "goto" and all(st[2] == "dead" for st in blocks[j]["s"]):
-            extra += blocks[j]["s"]
-            j = blocks[j]["t"][3]
+        # follow the exit chain (gotos and scope-exit drops, none of which touches the return place) to a return block
+        j, hops, chain = b["t"][3], 0, []
+        while j not in ret_blocks and hops < 16 and bo <= j < bo + n and blocks[j]["t"][2] in ("goto", "drop") \
+                and not any(st[2] == "=" and st[3][0] == ret_local for st in blocks[j]["s"]):
+            chain.append(j)
+            j = blocks[j]["t"][3] if blocks[j]["t"][2] == "goto" else blocks[j]["t"][4]
             hops += 1
         if j not in ret_blocks:
             continue
         tg = pick(c)
         if tg is None:
             continue
-        nb = {"c": b["c"], "s": list(b["s"]) + extra + list(blocks[j]["s"]) + list(T["s"]), "t": [b["t"][0], b["t"][1], "goto", tg]}
-        blocks[i] = nb
+        # private copy of the chain (tail duplication), ending in a jump to the arm this constant selects
+        first_new = len(blocks)
+        for k, cj in enumerate(chain):
+            src = blocks[cj]
+            nxt = first_new + k + 1
+            t2 = list(src["t"])
+            if t2[2] == "goto":
+                t2[3] = nxt
+            else:
+                t2[4] = nxt
+            blocks.append({"c": src["c"], "s": list(src["s"]), "t": t2})
+        blocks.append({"c": b["c"], "s": list(blocks[j]["s"]) + list(T["s"]), "t": [b["t"][0], b["t"][1], "goto", tg]})
+        blocks[i] = {"c": b["c"], "s": list(b["s"]), "t": [b["t"][0], b["t"][1], "goto", first_new]}
 
 
 def inlinable(prog, caller_name, callee_name, stack):
